@@ -380,6 +380,28 @@ def task_huge(idx, quick):
     return acc.result()
 
 
+# text that means something to a formatting / templating / regex layer: an error message or a pattern built from user text by
+# str.format, %-formatting, re or string.Template must not turn a rejection into a foreign exception
+TRAPS = ["{}", "{0}", "{a}", "{0.real}", "{!r}", "{{", "}}", "{0[0]}", "%s", "%d", "%(a)s", "%%", "%", "${a}", "$a", "\\1", "\\g<0>", "(?P<a>", "[a-",
+         "*", "+", "(", ")", "\\", "\\N{BULLET}", "{:>999999999}"]
+
+
+def task_traps(part, nparts):
+    from vlib import routes
+    acc = Acc(ID, impl.backend)
+    states = set()
+    names = (routes.NAMES + routes.NAMES_SUB)[part::nparts]
+    for rname in names:
+        for t in TRAPS:
+            for w in (t, "x" + t, t + "y", "a" + t + "b.com", t + t):
+                s = route_case(acc, rname, w)
+                if s is not None:
+                    states.add(s)
+    acc.state_count = len(states)
+    acc.sample({"format_trap_texts": TRAPS, "routes": len(names), "backend": impl.backend}, 1)
+    return acc.result()
+
+
 def task_wrongtypes():
     acc = Acc(ID, impl.backend)
     for c in WRONG_CALLS:
@@ -413,6 +435,8 @@ def plan(ctx):
         for i in range(len(HUGE)):
             tasks.append(("checks.C19", "task_huge", (i, quick), b, "h"))
         tasks.append(("checks.C19", "task_wrongtypes", (), b, "w"))
+        for part in range(4):
+            tasks.append(("checks.C19", "task_traps", (part, 4), b, "t"))
         for part in range(4):
             tasks.append(("checks.C19", "task_cacheapi", (part, 4), b, "ca"))
     spaces = [("F1", 1), ("X2", 2)] + ([] if quick else [("K3", 4), ("F2", 6)])
